@@ -315,6 +315,7 @@ impl<'a, T> ChordsV2<'a, T> {
     fn process_presses(&mut self, active_layer: u16) {
         let mut presses = HVec::<u16, SMOL_Q_LEN>::new();
         let mut relevant_release_found = false;
+        let mut released_key = None;
         for qd in self.queue.iter() {
             match qd.event {
                 Event::Press(_, j) => {
@@ -324,6 +325,7 @@ impl<'a, T> ChordsV2<'a, T> {
                 Event::Release(_, j) => {
                     if presses.contains(&j) {
                         relevant_release_found = true;
+                        released_key = Some(j);
                         break;
                     }
                 }
@@ -412,7 +414,7 @@ impl<'a, T> ChordsV2<'a, T> {
                         .iter()
                         .all(|pk| accumulated_presses.contains(pk))
                     {
-                        let ach = get_active_chord(cch, since, coord, relevant_release_found);
+                        let ach = get_active_chord(cch, since, coord, released_key);
                         let overflow = self.active_chords.push(ach);
                         assert!(overflow.is_ok(), "active chords has room");
                         break;
@@ -445,7 +447,7 @@ impl<'a, T> ChordsV2<'a, T> {
                     match completed_chord {
                         Some(cch) => {
                             let coord = self.next_coord();
-                            let ach = get_active_chord(cch, since, coord, relevant_release_found);
+                            let ach = get_active_chord(cch, since, coord, released_key);
                             let overflow = self.active_chords.push(ach);
                             assert!(overflow.is_ok(), "active chords has room");
                         }
@@ -498,7 +500,7 @@ impl<'a, T> ChordsV2<'a, T> {
             match completed_chord {
                 Some(cch) => {
                     let ach =
-                        get_active_chord(cch, since, self.next_coord(), relevant_release_found);
+                        get_active_chord(cch, since, self.next_coord(), released_key);
                     let overflow = self.active_chords.push(ach);
                     assert!(overflow.is_ok(), "active chords has room");
                 }
@@ -560,8 +562,12 @@ fn get_active_chord<'a, T>(
     cch: &ChordV2<'a, T>,
     since: u16,
     coord: u16,
-    release_found: bool,
+    released_key: Option<u16>,
 ) -> ActiveChord<'a, T> {
+    // Only the release of a participant releases a first-release chord.
+    let release_found = released_key
+        .map(|k| cch.participating_keys.contains(&k))
+        .unwrap_or(false);
     let mut remaining_keys_to_release = HVec::new();
     if cch.release_behaviour == ReleaseBehaviour::OnLastRelease {
         remaining_keys_to_release.extend(cch.participating_keys.iter().copied());
